@@ -2,6 +2,7 @@
 import json
 import os
 import re
+import threading
 import time
 
 import vlib
@@ -14,7 +15,11 @@ RULE = ("TLC enumerates the 'ready' states of the document builder of ApiDoc.tla
         "and inline) and the source text rendered by the spec. Families: kitchen-sink documents x every token "
         "boundary x every legal separator kind; uniform and pseudo-random layouts; all small multi-statement "
         "documents; bounded cartesian families; simulated large documents (thorough); invalid variants (1-4 "
-        "tokens deleted, a token duplicated/swapped, text cut off); the area of the open known finding "
+        "tokens deleted, a token duplicated/swapped, text cut off behind a token; and below the token level "
+        "the rendered text cut off at every character offset with nothing after it -- end of input inside every "
+        "token and separator -- and, thorough, started at every offset, one character deleted / doubled at every "
+        "offset, each with and without a final line break, plus texts with comments of every shape cut off at "
+        "every offset); the area of the open known finding "
         "(line-ending / own-line comments between the tokens of a route) enumerated on its own: every such "
         "boundary x every such comment kind on the kitchen-sink services, uniform layouts over the whole "
         "service, and (thorough) all pairs on one-route services, every route shape of the rich pool and "
@@ -50,10 +55,70 @@ def _modfile(run):
     return goctl, os.path.join(d, "alt.mod")
 
 
-def _family(run, goctl, modfile, cfg, label, workers=4, args=(), timeout=900, split=4000):
-    cases = run.generate(FAM, "ApiDocGen", cfg, workers=workers, args=list(args), timeout=timeout)
-    if not cases:
-        raise vlib.Infra("no cases generated by " + cfg)
+class _Ahead:
+    """The generation runs (no arguments other than the cfg) are done one after the other by one background
+    thread while the main thread model-checks, compiles, drives and validates the families before them.  Nothing else changes: every result is picked up (and any
+    failure re-raised) by the main thread at the place where the generation run would have happened."""
+
+    def __init__(self, run, cfgs, workers):
+        run._spec_copy(FAM)                       # the scratch copy of the specs exists before the thread starts
+        lock, tmp = threading.Lock(), run.tmp
+
+        def locked_tmp(name):
+            with lock:
+                return tmp(name)
+        run.tmp = locked_tmp                      # Run.tmp numbers the scratch files: one caller at a time
+        self.cfgs, self.res, self.err = list(cfgs), {}, None
+        self.done = {c: threading.Event() for c in self.cfgs}
+
+        def work():
+            for c in self.cfgs:
+                try:
+                    if self.err is None:
+                        self.res[c] = run.generate(FAM, "ApiDocGen", c, workers=workers, timeout=900)
+                except BaseException as ex:       # noqa: handed to the main thread
+                    self.err = ex
+                self.done[c].set()
+        self.thread = threading.Thread(target=work, daemon=True)
+        self.thread.start()
+
+    def take(self, cfg):
+        self.done[cfg].wait()
+        if cfg not in self.res:
+            raise self.err if isinstance(self.err, vlib.Infra) else vlib.Infra("generation ahead failed for %s: %r" % (cfg, self.err))
+        return self.res.pop(cfg)
+
+
+_ahead = None
+
+
+def _generate(run, cfg, workers, args, timeout):
+    if _ahead is not None and cfg in _ahead.done and not args:
+        return _ahead.take(cfg)
+    return run.generate(FAM, "ApiDocGen", cfg, workers=workers, args=list(args), timeout=timeout)
+
+
+def _family(run, goctl, modfile, cfg, label, workers=4, args=(), timeout=900, split=4000, dedupe=False):
+    """cfg: one generation config, or a list of them (their cases share one driver run and one validation).
+    dedupe: of the invalid cases with the same source text only the first is kept (documents with a common
+    beginning share the texts cut off inside it)"""
+    cfgs = cfg if isinstance(cfg, (list, tuple)) else [cfg]
+    cases = []
+    for c in cfgs:
+        got = _generate(run, c, workers, args, timeout)
+        if not got:
+            raise vlib.Infra("no cases generated by " + c)
+        cases += got
+    cfg = "+".join(cfgs)
+    if dedupe:
+        texts, kept = set(), []
+        for c in cases:
+            if not c["valid"]:
+                if c["src"] in texts:
+                    continue
+                texts.add(c["src"])
+            kept.append(c)
+        cases = kept
     seen = 0
     for i, c in enumerate(cases):
         c["id"] = i
@@ -109,7 +174,7 @@ def _area_family(run, goctl, modfile, cfg, label, workers=4, args=(), crosscheck
         vlib (rejected with no finding enabled, accepted with this one);
       * a trace the sorting run rejects although the deviation is enabled goes through the standard path on
         its own (-> VIOLATION) and the sorting run continues behind it."""
-    cases = run.generate(FAM, "ApiDocGen", cfg, workers=workers, args=list(args), timeout=900)
+    cases = _generate(run, cfg, workers, args, 900)
     if not cases:
         raise vlib.Infra("no cases generated by " + cfg)
     seen = 0
@@ -221,12 +286,22 @@ def check(run):
         "observable (the run then ends as a broken check, exit 2)",
     ]
     goctl, modfile = _modfile(run)
+    global _ahead
+    _ahead = _Ahead(run, ["ApiDocGenA.cfg", "ApiDocGenB.cfg", "ApiDocGenT.cfg", "ApiDocGenT2.cfg", "ApiDocGenA2.cfg",
+                          "ApiDocGenC.cfg", "ApiDocGenD.cfg", "ApiDocGenRq.cfg", "ApiDocGenRp.cfg", "ApiDocGenRd.cfg",
+                          "ApiDocGenRr.cfg"] if thorough else
+                    ["ApiDocGenAq.cfg", "ApiDocGenBq.cfg", "ApiDocGenTq.cfg", "ApiDocGenRq.cfg"],
+                    workers=4 if thorough else 2)
     # design level: the generator itself (layout legality, canonical layout legality) on a small exhaustive family
     run.model_check(FAM, "ApiDoc", "ApiDocMC.cfg" if thorough else "ApiDocMCq.cfg", workers=4,
                     note="builder + every layout mode (incl. the area of the known finding) over the tiny pools, "
                          "2 statements: LayoutLegal, CanonicalLegal, MeaningShape, AreaSane")
     _family(run, goctl, modfile, "ApiDocGenA.cfg" if thorough else "ApiDocGenAq.cfg", "kitchen-sink")
-    _family(run, goctl, modfile, "ApiDocGenB.cfg" if thorough else "ApiDocGenBq.cfg", "adjacency")
+    if thorough:
+        _family(run, goctl, modfile, "ApiDocGenB.cfg", "adjacency")
+        _family(run, goctl, modfile, ["ApiDocGenT.cfg", "ApiDocGenT2.cfg"], "damaged-text", workers=8, dedupe=True)
+    else:
+        _family(run, goctl, modfile, ["ApiDocGenBq.cfg", "ApiDocGenTq.cfg"], "adjacency+cut-off-text")
     if thorough:
         _family(run, goctl, modfile, "ApiDocGenA2.cfg", "kitchen-sink-random")
         _family(run, goctl, modfile, "ApiDocGenC.cfg", "cover-structures", workers=8)
@@ -249,7 +324,8 @@ LEVEL_TEXT = ("Bounded exhaustive exploration: TLC enumerates abstract .api docu
               "finding that excuses non-idempotence there and nothing else) and decides, per "
               "recorded run of the real parser and format.Source, Equivalent(parse(src), Meaning(doc)), "
               "Equivalent(parse(format(src)), parse(src)), format(format(src)) = format(src), "
-              "Equivalent(parse(format(format(src))), parse(src)), and error-not-crash for mutated variants.")
+              "Equivalent(parse(format(format(src))), parse(src)), and error-not-crash for mutated variants (token "
+              "sequences and texts damaged at every character offset).")
 LEVEL_NOTE = ("Weak fit (DESIGN.md Part C): no interesting state space; TLC is the generator and the evaluator of the "
               "relational property. Nothing is claimed about sources outside the generated family (other identifiers, "
               "literals, longer documents, empty-string literals, CRLF) nor about lexical fidelity of comments. The AST "
